@@ -1,6 +1,6 @@
 (* Byte-level model of the El Torito boot-catalog codecs of /repo/pycdlib/eltorito.py and of the
    boot-info-table checksum of /repo/pycdlib/pycdlib.py.  Definitions only; the proofs are in
-   Proofs/EltoritoProofs.v, Proofs/EltoritoCatalogProofs.v and Proofs/EltoritoBitProofs.v.
+   Proofs/EltoritoProofs.v, EltoritoCatalogProofs.v, EltoritoBuiltProofs.v, EltoritoBitProofs.v.
 
    Sources modelled (statement by statement):
      EltoritoValidationEntry._record/.record/.new/.parse   -> val_bytes, val_record, val_new(_ids), val_parse
@@ -288,10 +288,9 @@ Definition last_pending (secs : list et_header) : bool :=
   | None => false
   end.
 
-(* EltoritoBootCatalog.parse(valstr) -> (new object state, returned bool); the order of the tests
-   on valstr[0] is the order of the if/elif chain: 0x00 while the last section still expects
-   entries is a (non-bootable) section entry, any other 0x00 is the terminator, so the b'\x00' of
-   the later `val in (b'\x88', b'\x00')` is never reached *)
+(* EltoritoBootCatalog.parse(valstr) -> (new object state, returned bool), tests in the order of the
+   if/elif chain: 0x00 while the last section still expects entries is a (non-bootable) section
+   entry, any other 0x00 the terminator; the b'\x00' of the later `val in (...)` is never reached *)
 Definition cat_parse_step (st : pstate) (valstr : list Z) : option (pstate * bool) :=
   match st with
   | PExpectVal =>
@@ -381,9 +380,8 @@ Fixpoint read32 (n : nat) (data : list Z) : list (list Z) :=
   | S n' => firstn 32 data :: read32 n' (skipn 32 data)
   end.
 
-(* feeding a byte string in 32-byte units until parse returns True (the reader of pycdlib before
-   commit 351102c; still the meaning of "parse this string").  A read at the end returns b'' and
-   parse then raises; every unit consumes input or fails, so S (length data) units are enough. *)
+(* feeding a byte string in 32-byte units until parse returns True (pycdlib's reader before commit
+   351102c).  A read at the end returns b'' and parse then raises; S (length data) units suffice. *)
 Definition parse_catalog (data : list Z) : option et_catalog :=
   parse_units (fun _ => None) (read32 (S (length data)) data) PExpectVal.
 
@@ -404,9 +402,8 @@ Fixpoint parse_zeros (fuel : nat) (st : pstate) : option et_catalog :=
          if num_left > 0: data = fp.read(32) ; num_left -= 1
          else: data = b'\x00' * 32
    i.e. at most 64 units are read from the image ([data] = the image from the catalog's extent on),
-   then synthetic zero units.  A zero unit ends the parse, or raises, or is taken as one of the at
-   most 65535 entries the last header still expects (+2 for the validation / initial states), so
-   the fuel of 65538 zero units is never exhausted. *)
+   then zero units.  A zero unit ends the parse, raises, or is one of the at most 65535 entries the
+   last header still expects (+2: validation / initial states): 65538 are never exhausted. *)
 Definition zero_units : nat := Z.to_nat 65538.
 Definition parse_catalog_extent (data : list Z) : option et_catalog :=
   parse_units (parse_zeros zero_units) (read32 64 data) PExpectVal.
@@ -428,8 +425,7 @@ Definition cat_inv (c : et_catalog) : bool :=
   forallb (fun h => h_num_entries h =? 1) (c_sections c) &&
   (match c_standalone c with [] => true | _ => false end).
 (* what the record -> parse round trip needs: section entries may be bootable or not; a standalone
-   entry (after the sections, which are all complete) must be bootable (first byte 0x88), because
-   there a first byte 0x00 is the terminator *)
+   entry must be bootable (0x88): after complete sections a first byte 0x00 is the terminator *)
 Definition cat_wf (c : et_catalog) : bool :=
   val_ok (c_validation c) && entry_ok (c_initial c) && forallb section_ok (c_sections c) &&
   sections_sane (c_sections c) &&
@@ -535,7 +531,6 @@ Definition check_validation_case (platform_id : Z) (id_string : list Z) (expecte
                  | Some v => val_record v
                  | None => None
                  end) expected.
-
 Definition entry_tuple : Type := (Z * Z * Z * Z * Z * Z * Z * list Z)%type.
 Definition entry_of_tuple (t : entry_tuple) : et_entry :=
   let '(bi, mt, ls, st, sc, rba, selt, crit) := t in mk_entry bi mt ls st sc rba selt crit.
@@ -549,13 +544,11 @@ Definition check_entry_new_case (sector_count load_seg media system_type : Z) (b
                  end) expected.
 Definition check_entry_dec_case (b : list Z) (expected : list Z) : bool :=
   opt_bytes_eqb (match entry_parse b with Some e => entry_record e | None => None end) expected.
-
 Definition header_tuple : Type := (Z * Z * Z * list Z)%type.
 Definition header_of_tuple (t : header_tuple) (es : list entry_tuple) : et_header :=
   let '(ind, pid, num, ids) := t in mk_header ind pid num ids (map entry_of_tuple es).
 Definition check_header_case (t : header_tuple) (entries : list entry_tuple) (expected : list Z)
   : bool := opt_bytes_eqb (header_record (header_of_tuple t entries)) expected.
-
 Fixpoint zeros_after (b data : list Z) : bool :=
   match b, data with
   | [], _ => forallb (fun x => x =? 0) data
